@@ -16,7 +16,7 @@ def comps(spec, kinds=("handlers", "mws", "fallbacks")):
 def wild_edit(rng, spec):
     """Apply one random edit that may take the spec outside C02's class. Returns a label."""
     ops = ["mut_input", "ref_to_val", "val_twice", "drop_cin", "mut_and_ref", "generic_wrapper", "never_clone_with_clone_impl_twice",
-           "mut_on_wrap_or_ctor", "val_in_two_mws"]
+           "mut_on_wrap_or_ctor", "val_in_two_mws", "never_clone_override_moved_twice"]
     op = rng.choice(ops)
     cl = [(k, xid, x) for (k, xid, x) in comps(spec) if x.get("ins")]
     types = [t for t, ty in spec["types"].items() if not ty.get("generic")]
@@ -81,6 +81,32 @@ def wild_edit(rng, spec):
             for c in spec["ctors"].values():
                 if c["out"] == t:
                     c["cloning"] = None
+            hs = list(spec["handlers"].values())
+            ms = list(spec["mws"].values())
+            for x in rng.sample(hs, min(2, len(hs))) + rng.sample(ms, min(1, len(ms))):
+                x["ins"] = [i for i in x["ins"] if i[0] != t] + [[t, "val"]]
+            return op
+    if op == "never_clone_override_moved_twice" and types:
+        # attribute says clone_if_necessary, the registration overrides it with .never_clone(); the value is then needed twice
+        cands = [t for t in types if spec["types"][t]["lc"] == "request" and not spec["types"][t].get("copy")]
+        regs = {}
+        for (bp, _d) in gen._bp_nodes(spec["bp"]):
+            for it in bp["items"]:
+                if it[0] == "ctor":
+                    regs.setdefault(it[1], []).append(it)
+        rng.shuffle(cands)
+        for t in cands:
+            cids = [cid for cid, c in spec["ctors"].items() if c["out"] == t]
+            if len(cids) != 1 or len(regs.get(cids[0], [])) != 1:
+                continue
+            c = spec["ctors"][cids[0]]
+            spec["types"][t]["clone"] = True
+            c["cloning"] = "never"
+            c["ann_cloning"] = "cin"
+            it = regs[cids[0]][0]
+            if len(it) < 3:
+                it.append({})
+            it[2]["cloning"] = "never"
             hs = list(spec["handlers"].values())
             ms = list(spec["mws"].values())
             for x in rng.sample(hs, min(2, len(hs))) + rng.sample(ms, min(1, len(ms))):
